@@ -1,11 +1,22 @@
 import BeyondVerif.Lemmas.Tle
+import BeyondVerif.Lemmas.TleWrite
+import BeyondVerif.Lemmas.TleRead
 
 /-!
 # C12 — TLE text round-trips and is validated
 
 Property theorems about the model `Model/Tle.lean` of `beyond/io/tle.py` (column slices, checksum constants and the
 writer's field layout regenerated from the source into `Generated/TleColumns.lean` on every run; the model is tied
-to the code by an exact differential correspondence run).
+to the code by an exact differential correspondence run). The model follows the repaired code (1de1dcf, 7d01f12,
+900dafc, f1c2a4f, be00355).
+
+* clause 3 (validation): `checksum_detects_digit_error`, `valid_iff`, `too_few_lines_rejected`, `length_checked`,
+  `line_number_checked`, `digit_corruption_rejected`
+* clause 1 (epoch): `epoch_roundtrip`
+* drag terms: `unfloat_float_id`, `unfloat_float_zero`, `float_unfloat_id`
+* clause 2: `written_lines_valid`, `parse_write_id`  (∀ records in `InRange`, `Lemmas/TleWrite.lean`)
+* clause 1: `write_parse_id` (∀ canonical texts = texts written from a record in range), `reference_tles_roundtrip`
+* clause 4: `from_string_yields_valid_entries` (full strength since 7d01f12), `from_string_framed_exact`
 -/
 namespace BeyondVerif.C12
 open BeyondVerif.Tle
@@ -73,9 +84,7 @@ theorem valid_iff (text : List Str) : checkValidity text = .ok () ↔
   unfold checkValidity
   match text with
   | [] => simp
-  | [t0] =>
-    simp only [List.cons.injEq, List.nil_eq, reduceCtorEq, and_false, false_and, exists_false, iff_false]
-    split <;> simp
+  | [t0] => simp
   | t0 :: t1 :: rest =>
     by_cases h0 : startsWith (lstrip t0) ['1', ' '] = true
     · by_cases h1 : startsWith (lstrip t1) ['2', ' '] = true
@@ -92,6 +101,14 @@ theorem valid_iff (text : List Str) : checkValidity text = .ok () ↔
       constructor
       · intro h; cases h
       · rintro ⟨_, _, _, heq, h, _, _⟩; cases heq; exact absurd h h0
+
+/-- a text with fewer than two lines (a missing or empty second line) is a parse error -/
+theorem too_few_lines_rejected (text : List Str) (h : text.length < 2) :
+    checkValidity text = .error (.lineCount text.length) := by
+  match text with
+  | [] => rfl
+  | [_] => rfl
+  | _ :: _ :: _ => simp only [List.length_cons] at h; omega
 
 /-- wrong **length**: a text in which some line, once stripped, is not 69 characters long is rejected -/
 theorem length_checked (text : List Str) (l : Str) (hl : l ∈ text) (hlen : (strip l).length ≠ 69) :
@@ -225,29 +242,564 @@ theorem epoch_roundtrip (y day8 : Nat) (h1 : 100000000 ≤ day8)
 
 example : (100000000 : Nat) ≤ 26451782528 ∧ 26451782528 < (if isLeap 2008 then 367 else 366) * 100000000 := by decide
 
-/-! ## Clause 4 — a multi-TLE text yields exactly its valid entries -/
+/-! ## Clauses 1 and 2 (drag terms) — the decimal-point-assumed notation round-trips -/
+
+/-- **`_float(_unfloat(x)) = x` and `_unfloat(_float(text)) = text`** on every (sign, mantissa, exponent) triple of the
+notation: for a five-digit mantissa `10000 ≤ m5 ≤ 99999`, either sign and EVERY exponent, the written field is read
+back as exactly `± 0.m5 · 10^exp`; and (exponent ≥ -9, the range of the one-column exponent) that value is written
+again as the same triple. -/
+theorem unfloat_float_id (neg : Bool) (m5 : Nat) (exp : Int) (h1 : 10000 ≤ m5) (h2 : m5 < 100000) :
+    tleFloat (unfloat (.val neg m5 exp)) = .ok ⟨neg, m5, 5 - exp⟩ ∧
+    (-9 ≤ exp → toUnfl ⟨neg, m5, 5 - exp⟩ = .val neg m5 exp) := by
+  constructor
+  · have hlen : (natStr m5).length = 5 := natStr_length_eq 4 m5 h1 h2
+    obtain ⟨c0, hc0, t0, ht0⟩ := natStr_head m5
+    obtain ⟨dz, hdz, hlast⟩ := natStr_last exp.natAbs
+    -- the written field
+    have hu : unfloat (.val neg m5 exp) =
+        (if neg then ['-'] else []) ++ natStr m5 ++ ((if exp < 0 then '-' else '+') :: natStr exp.natAbs) := by
+      simp only [unfloat]; by_cases he : exp < 0 <;> simp [he]
+    generalize hsep : (if exp < 0 then '-' else '+' : Char) = sep at hu
+    have hsep' : sep = '+' ∨ sep = '-' := by subst hsep; split <;> simp
+    have hstrip : strip (unfloat (.val neg m5 exp)) = unfloat (.val neg m5 exp) := by
+      rw [hu]
+      have hz : ((if neg then ['-'] else []) ++ natStr m5 ++ sep :: natStr exp.natAbs)[((if neg then ['-'] else []) ++ natStr m5 ++ sep :: natStr exp.natAbs).length - 1]? = some (digitChar dz) := by
+        have hp := natStr_length_pos exp.natAbs
+        rw [List.getElem?_append_right (by simp; omega)]
+        simp only [List.length_append, List.length_cons]
+        rw [show (List.length (if neg then ['-'] else []) + (natStr m5).length + ((natStr exp.natAbs).length + 1) - 1 - (List.length (if neg then ['-'] else []) + (natStr m5).length)) = ((natStr exp.natAbs).length - 1) + 1 by omega]
+        simpa using hlast
+      cases neg with
+      | true => exact strip_of_ends (a := '-') (by simp) hz (by decide) (isWs_digitChar hdz)
+      | false => exact strip_of_ends (a := c0) (by simp [ht0]) hz (isWs_of_isDigit hc0) (isWs_digitChar hdz)
+    have hscale : (if sep = '-' then ((natStr m5).length : Int) + exp.natAbs else ((natStr m5).length : Int) - exp.natAbs) = 5 - exp := by
+      rw [hlen]; subst hsep
+      by_cases he : exp < 0
+      · simp [he]; omega
+      · simp [he]; omega
+    unfold tleFloat
+    rw [hstrip, hu]
+    have hdig := isDigit_not_sign hc0
+    cases neg with
+    | true =>
+      simp only [if_true, List.cons_append, List.nil_append, Bool.true_or, decide_true]
+      rw [tleFloatSigned_core '-' sep m5 exp.natAbs (Or.inr rfl) hsep', hscale]
+      simp
+    | false =>
+      simp only [Bool.false_eq_true, if_false, List.nil_append]
+      rw [ht0]
+      simp only [List.cons_append]
+      have hc0' : (decide (c0 = '-') || decide (c0 = '+')) = false := by simp [hdig.1, hdig.2.1]
+      simp only [hc0', Bool.false_eq_true, if_false]
+      rw [← List.cons_append, ← ht0, tleFloatSigned_core '+' sep m5 exp.natAbs (Or.inl rfl) hsep', hscale]
+      simp
+  · intro he
+    unfold toUnfl
+    have hm : ¬ m5 = 0 := by omega
+    simp only [hm, if_false]
+    have hs : sig5 m5 = (m5, 0) := by
+      unfold sig5
+      rw [if_neg (by omega), if_pos h2]
+    rw [hs]
+    simp only
+    rw [if_neg (by omega)]
+    congr 1; omega
+
+
+/-- the single rendering of zero, `00000-0`, is read as zero and written again as itself -/
+theorem unfloat_float_zero : tleFloat (unfloat .zero) = .ok ⟨false, 0, 5⟩ ∧ toUnfl ⟨false, 0, 5⟩ = .zero := by
+  constructor
+  · rfl
+  · rfl
+
+/-- **`_float(_unfloat(x)) = x`** for every value with a five-digit mantissa and an exponent the single column holds
+(`x = ± 0.m5 · 10^(5 - scale)`, `5 - scale ≥ -9`) -/
+theorem float_unfloat_id (neg : Bool) (m5 : Nat) (scale : Int) (h1 : 10000 ≤ m5) (h2 : m5 < 100000) (hs : scale ≤ 14) :
+    tleFloat (unfloat (toUnfl ⟨neg, m5, scale⟩)) = .ok ⟨neg, m5, scale⟩ := by
+  obtain ⟨hr, hw⟩ := unfloat_float_id neg m5 (5 - scale) h1 h2
+  have e : (5 : Int) - (5 - scale) = scale := by omega
+  rw [e] at hr hw
+  rw [hw (by omega), hr]
+
+example : tleFloat "-11606-4".toList = .ok ⟨true, 11606, 9⟩ ∧ unfloat (.val true 11606 (-4)) = "-11606-4".toList := by
+  constructor <;> rfl
+
+
+/-! ## Clause 2 — any orbit that can be written yields 69-character lines with correct checksums -/
+
+
+/-- a 68-character body whose characters all have a checksum value, followed by its check digit, is a valid line -/
+theorem lineOk_of_body (body : Str) (a : Char) (t : Str) (hb : body = a :: t) (ha : isWs a = false)
+    (hl : body.length = 68) (hok : ∀ c ∈ body, okc c = true) :
+    ∃ c, c < 10 ∧ checksum body = some c ∧ LineOk (body ++ natStr c) ∧ (body ++ natStr c).length = 69 ∧
+      strip (body ++ natStr c) = body ++ natStr c := by
+  obtain ⟨s, hs⟩ := sumVals_some body hok
+  have hck : checksum body = some (s % 10) := by
+    unfold checksum
+    simp only [Generated.Tle.ckLen]
+    rw [List.take_of_length_le (by omega), hs]; rfl
+  have hc10 : s % 10 < 10 := by omega
+  refine ⟨s % 10, hc10, hck, ?_⟩
+  rw [natStr_lt10 hc10]
+  have hlen : (body ++ [digitChar (s % 10)]).length = 69 := by simp [hl]
+  have hstrip : strip (body ++ [digitChar (s % 10)]) = body ++ [digitChar (s % 10)] := by
+    apply strip_of_ends (a := a) (z := digitChar (s % 10)) _ _ ha (isWs_digitChar hc10)
+    · rw [hb]; simp
+    · rw [hlen, List.getElem?_append_right (by omega), hl]; simp
+  refine ⟨⟨by rw [hstrip]; exact hlen, s % 10, ?_, ?_⟩, hlen, hstrip⟩
+  · rw [hstrip]
+    unfold checksum at hck ⊢
+    simp only [Generated.Tle.ckLen] at hck ⊢
+    rw [List.take_of_length_le (by omega)] at hck
+    rw [List.take_left' hl]; exact hck
+  · rw [hstrip, natStr_lt10 hc10, slice_one, List.getElem?_append_right (by omega), hl]; simp
+
+
+theorem sum_map_length_flatten (L : List Str) : L.flatten.length = (L.map List.length).sum := by
+  induction L with
+  | nil => rfl
+  | cons x xs ih => simp [ih]
+
+/-- what `from_orbit` hands to `cls(...)`: the bodies followed by their check digits -/
+theorem writeRec_eq (r : Rec) (h : InRange r) :
+    ∃ c1 c2, c1 < 10 ∧ c2 < 10 ∧ checksum (chunks1 r).flatten = some c1 ∧ checksum (chunks2 r).flatten = some c2 ∧
+      LineOk ((chunks1 r).flatten ++ natStr c1) ∧ LineOk ((chunks2 r).flatten ++ natStr c2) ∧
+      ((chunks1 r).flatten ++ natStr c1).length = 69 ∧ ((chunks2 r).flatten ++ natStr c2).length = 69 ∧
+      strip ((chunks1 r).flatten ++ natStr c1) = (chunks1 r).flatten ++ natStr c1 ∧
+      strip ((chunks2 r).flatten ++ natStr c2) = (chunks2 r).flatten ++ natStr c2 ∧
+      writeRec r = .ok (if r.name.isEmpty then [(chunks1 r).flatten ++ natStr c1, (chunks2 r).flatten ++ natStr c2]
+        else [r.name, (chunks1 r).flatten ++ natStr c1, (chunks2 r).flatten ++ natStr c2]) := by
+  have hl1 : (chunks1 r).flatten.length = 68 := by rw [sum_map_length_flatten, chunks1_lengths r h]; rfl
+  have hl2 : (chunks2 r).flatten.length = 68 := by rw [sum_map_length_flatten, chunks2_lengths r h]; rfl
+  have hb1 : (chunks1 r).flatten = '1' :: ((chunks1 r).flatten.drop 1) := by simp [chunks1]
+  have hb2 : (chunks2 r).flatten = '2' :: ((chunks2 r).flatten.drop 1) := by simp [chunks2]
+  obtain ⟨c1, h1, hk1, ok1, len1, st1⟩ := lineOk_of_body _ '1' _ hb1 (by decide) hl1 (okc_chunks1 r h)
+  obtain ⟨c2, h2, hk2, ok2, len2, st2⟩ := lineOk_of_body _ '2' _ hb2 (by decide) hl2 (okc_chunks2 r h)
+  refine ⟨c1, c2, h1, h2, hk1, hk2, ok1, ok2, len1, len2, st1, st2, ?_⟩
+  unfold writeRec
+  have he : r.ecc7 / 10000000 = 0 := by have := h.ecc; omega
+  simp only [he, natStr_zero, ne_eq, not_true_eq_false, if_false, render_fmt1, render_fmt2, hk1, hk2]
+
+/-- **any orbit that can be written yields lines of exactly 69 characters with correct checksums**: for EVERY record
+inside the ranges of the format, `from_orbit` assembles two lines of 69 characters each, free of surrounding blanks,
+starting with `1 ` and `2 `, whose 69th character is the modulo-10 checksum of the first 68 — i.e. a text that
+`_check_validity` accepts. -/
+theorem written_lines_valid (r : Rec) (h : InRange r) :
+    ∃ l1 l2, writeRec r = .ok (if r.name.isEmpty then [l1, l2] else [r.name, l1, l2]) ∧
+      l1.length = 69 ∧ l2.length = 69 ∧ LineOk l1 ∧ LineOk l2 ∧ checkValidity [l1, l2] = .ok () := by
+  obtain ⟨c1, c2, _, _, _, _, ok1, ok2, len1, len2, _, _, hw⟩ := writeRec_eq r h
+  refine ⟨_, _, hw, len1, len2, ok1, ok2, ?_⟩
+  rw [valid_iff]
+  refine ⟨_, _, [], rfl, ?_, ?_, ?_⟩
+  · have : (chunks1 r).flatten ++ natStr c1 = '1' :: ' ' :: (((chunks1 r).flatten ++ natStr c1).drop 2) := by simp [chunks1]
+    rw [this, lstrip_cons_of_not_ws (by decide)]; rfl
+  · have : (chunks2 r).flatten ++ natStr c2 = '2' :: ' ' :: (((chunks2 r).flatten ++ natStr c2).drop 2) := by simp [chunks2]
+    rw [this, lstrip_cons_of_not_ws (by decide)]; rfl
+  · intro l hl
+    simp at hl
+    rcases hl with rfl | rfl
+    · exact ok1
+    · exact ok2
+
+
+def issRec : Rec :=
+  { name := "ISS (ZARYA)".toList, norad := 25544, cospar := "98067A".toList, yy := 8, day8 := 26451782528, ndotNeg := true,
+    ndot8 := 2182, ndd := .zero, bstar := .val true 11606 (-4), elnb := 2927, inc4 := 516416, raan4 := 2474627, ecc7 := 6703,
+    argp4 := 1305360, ma4 := 3250288, mm8 := 1572125391, revs := 56353 }
+
+/-- the reference TLE's record is inside the ranges -/
+theorem issRec_inRange : InRange issRec where
+  norad := by decide
+  cospar := Or.inr ⟨98, "067A".toList, by decide, by decide, by decide, by decide, by decide⟩
+  yy := by decide
+  day := by decide
+  ndot := by decide
+  ndd := Or.inl rfl
+  bstar := Or.inr ⟨true, 11606, -4, rfl, by decide, by decide, by decide, by decide⟩
+  elnb := by decide
+  inc := by decide
+  raan := by decide
+  ecc := by decide
+  argp := by decide
+  ma := by decide
+  mm := by decide
+  revs := by decide
+  name := Or.inr ⟨by decide, by decide, by decide⟩
+
+/-! ## Clauses 1 and 2 — write → parse gives the same elements, parse → write the identical lines -/
+
+
+/-- the exact decimal a canonical drag term stands for -/
+def decOfUnfl : Unfl → Dec
+  | .zero => ⟨false, 0, 5⟩
+  | .val neg m5 exp => ⟨neg, m5, 5 - exp⟩
+  | .small neg d => ⟨neg, d, 14⟩
+
+theorem canon_read {u : Unfl} (h : CanonUnfl u) :
+    tleFloat (padLeft ' ' 8 (unfloat u)) = .ok (decOfUnfl u) ∧ toUnfl (decOfUnfl u) = u := by
+  rw [tleFloat_padLeft]
+  rcases h with rfl | ⟨neg, m5, exp, rfl, h1, h2, h3, _⟩
+  · exact unfloat_float_zero
+  · obtain ⟨a, b⟩ := unfloat_float_id neg m5 exp h1 h2
+    exact ⟨a, b h3⟩
+
+/-- the columns of a written first line -/
+theorem line1_slices (r : Rec) (h : InRange r) (tl : Str) :
+    let l := (chunks1 r).flatten ++ tl
+    slice l G.norad = padLeft '0' 5 (intStr r.norad) ∧
+    slice l G.classification = ['U'] ∧
+    slice l G.cosparTest = padRight ' ' 8 r.cospar ∧
+    slice l G.epochYear = fixedDigits 2 r.yy ∧
+    slice l G.epochDay = fmtFix true 12 8 r.day8 ∧
+    slice l G.ndot = padLeft ' ' 10 (fmtNdot r.ndotNeg r.ndot8) ∧
+    slice l G.ndotdot = padLeft ' ' 8 (unfloat r.ndd) ∧
+    slice l G.bstar = padLeft ' ' 8 (unfloat r.bstar) ∧
+    slice l G.etype = ['0'] ∧
+    slice l G.elnb = padLeft ' ' 4 (intStr r.elnb) := by
+  intro l
+  have hl := chunks1_lengths r h
+  simp only [chunks1, List.map_cons, List.map_nil, List.cons.injEq, and_true] at hl
+  obtain ⟨_, h1, _, _, h4, _, h6, h7, _, h9, _, h11, _, h13, _, _, _, h17⟩ := hl
+  refine ⟨?_, ?_, ?_, ?_, ?_, ?_, ?_, ?_, ?_, ?_⟩
+  · exact slice_chunk [['1', ' ']] _ _ tl 2 7 (by simp) (by simp [h1])
+  · exact slice_chunk [['1', ' '], padLeft '0' 5 (intStr r.norad)] ['U'] _ tl 7 8 (by simp [h1]) (by simp)
+  · exact slice_chunk [['1', ' '], padLeft '0' 5 (intStr r.norad), ['U'], [' ']] _ _ tl 9 17 (by simp [h1]) (by simp [h4])
+  · exact slice_chunk [['1', ' '], padLeft '0' 5 (intStr r.norad), ['U'], [' '], padRight ' ' 8 r.cospar, [' ']] _ _ tl 18 20
+      (by simp [h1, h4]) (by simp [h6])
+  · exact slice_chunk [['1', ' '], padLeft '0' 5 (intStr r.norad), ['U'], [' '], padRight ' ' 8 r.cospar, [' '], fixedDigits 2 r.yy] _ _ tl 20 32
+      (by simp [h1, h4, h6]) (by simp [h7])
+  · exact slice_chunk [['1', ' '], padLeft '0' 5 (intStr r.norad), ['U'], [' '], padRight ' ' 8 r.cospar, [' '], fixedDigits 2 r.yy,
+      fmtFix true 12 8 r.day8, [' ']] _ _ tl 33 43 (by simp [h1, h4, h6, h7]) (by simp [h9])
+  · exact slice_chunk [['1', ' '], padLeft '0' 5 (intStr r.norad), ['U'], [' '], padRight ' ' 8 r.cospar, [' '], fixedDigits 2 r.yy,
+      fmtFix true 12 8 r.day8, [' '], padLeft ' ' 10 (fmtNdot r.ndotNeg r.ndot8), [' ']] _ _ tl 44 52 (by simp [h1, h4, h6, h7, h9]) (by simp [h11])
+  · exact slice_chunk [['1', ' '], padLeft '0' 5 (intStr r.norad), ['U'], [' '], padRight ' ' 8 r.cospar, [' '], fixedDigits 2 r.yy,
+      fmtFix true 12 8 r.day8, [' '], padLeft ' ' 10 (fmtNdot r.ndotNeg r.ndot8), [' '], padLeft ' ' 8 (unfloat r.ndd), [' ']] _ _ tl 53 61
+      (by simp [h1, h4, h6, h7, h9, h11]) (by simp [h13])
+  · exact slice_chunk [['1', ' '], padLeft '0' 5 (intStr r.norad), ['U'], [' '], padRight ' ' 8 r.cospar, [' '], fixedDigits 2 r.yy,
+      fmtFix true 12 8 r.day8, [' '], padLeft ' ' 10 (fmtNdot r.ndotNeg r.ndot8), [' '], padLeft ' ' 8 (unfloat r.ndd), [' '],
+      padLeft ' ' 8 (unfloat r.bstar), [' ']] ['0'] _ tl 62 63 (by simp [h1, h4, h6, h7, h9, h11, h13]) (by simp)
+  · exact slice_chunk [['1', ' '], padLeft '0' 5 (intStr r.norad), ['U'], [' '], padRight ' ' 8 r.cospar, [' '], fixedDigits 2 r.yy,
+      fmtFix true 12 8 r.day8, [' '], padLeft ' ' 10 (fmtNdot r.ndotNeg r.ndot8), [' '], padLeft ' ' 8 (unfloat r.ndd), [' '],
+      padLeft ' ' 8 (unfloat r.bstar), [' '], ['0'], [' ']] _ [] tl 64 68 (by simp [h1, h4, h6, h7, h9, h11, h13]) (by simp [h17])
+
+
+theorem padRight_split (a b : Str) (w : Nat) (h : a.length ≤ w) :
+    padRight ' ' w (a ++ b) = a ++ padRight ' ' (w - a.length) b := by
+  unfold padRight
+  rw [List.append_assoc]
+  congr 2
+  simp; omega
+
+theorem line1_cospar_slices (r : Rec) (h : InRange r) (tl : Str) (cy : Nat) (piece : Str)
+    (hc : r.cospar = fixedDigits 2 cy ++ piece) (hp : piece.length ≤ 6) :
+    let l := (chunks1 r).flatten ++ tl
+    slice l G.cosparYear = fixedDigits 2 cy ∧ slice l G.cosparPiece = padRight ' ' 6 piece := by
+  intro l
+  have hl := chunks1_lengths r h
+  simp only [chunks1, List.map_cons, List.map_nil, List.cons.injEq, and_true] at hl
+  obtain ⟨_, h1, _, _, _, _, _, _, _, _, _, _, _, _, _, _, _, _⟩ := hl
+  have hsplit : padRight ' ' 8 r.cospar = fixedDigits 2 cy ++ padRight ' ' 6 piece := by
+    rw [hc, padRight_split _ _ _ (by simp [fixedDigits_length])]; simp [fixedDigits_length]
+  have hp6 : (padRight ' ' 6 piece).length = 6 := padRight_length hp
+  have e : l = ([['1', ' '], padLeft '0' 5 (intStr r.norad), ['U'], [' '], fixedDigits 2 cy, padRight ' ' 6 piece, [' '], fixedDigits 2 r.yy,
+      fmtFix true 12 8 r.day8, [' '], padLeft ' ' 10 (fmtNdot r.ndotNeg r.ndot8), [' '], padLeft ' ' 8 (unfloat r.ndd), [' '],
+      padLeft ' ' 8 (unfloat r.bstar), [' '], ['0'], [' '], padLeft ' ' 4 (intStr r.elnb)] : List Str).flatten ++ tl := by
+    simp [l, chunks1, hsplit]
+  rw [e]
+  constructor
+  · exact slice_chunk [['1', ' '], padLeft '0' 5 (intStr r.norad), ['U'], [' ']] _ _ tl 9 11 (by simp [h1]) (by simp [fixedDigits_length])
+  · exact slice_chunk [['1', ' '], padLeft '0' 5 (intStr r.norad), ['U'], [' '], fixedDigits 2 cy] _ _ tl 11 17
+      (by simp [h1, fixedDigits_length]) (by simp [hp6])
+
+/-- the columns of a written second line -/
+theorem line2_slices (r : Rec) (h : InRange r) (tl : Str) :
+    let l := (chunks2 r).flatten ++ tl
+    slice l G.inc = fmtFix false 8 4 r.inc4 ∧
+    slice l G.raan = fmtFix false 8 4 r.raan4 ∧
+    slice l G.ecc = fixedDigits 7 r.ecc7 ∧
+    slice l G.argp = fmtFix false 8 4 r.argp4 ∧
+    slice l G.ma = fmtFix false 8 4 r.ma4 ∧
+    slice l G.mm = fmtFix false 11 8 r.mm8 ∧
+    slice l G.revs = padLeft ' ' 5 (intStr r.revs) := by
+  intro l
+  have hl := chunks2_lengths r h
+  have hecc : padRight ' ' 0 (fmtEcc r.ecc7) = fixedDigits 7 r.ecc7 := by rw [fmtEcc_eq _ h.ecc]; simp [padRight]
+  simp only [chunks2, List.map_cons, List.map_nil, List.cons.injEq, and_true] at hl
+  obtain ⟨_, h1, _, h3, _, h5, _, h7, _, h9, _, h11, _, h13, h14⟩ := hl
+  have e : l = ([['2', ' '], padLeft '0' 5 (intStr r.norad), [' '], fmtFix false 8 4 r.inc4, [' '], fmtFix false 8 4 r.raan4, [' '],
+      fixedDigits 7 r.ecc7, [' '], fmtFix false 8 4 r.argp4, [' '], fmtFix false 8 4 r.ma4, [' '],
+      fmtFix false 11 8 r.mm8, padLeft ' ' 5 (intStr r.revs)] : List Str).flatten ++ tl := by
+    simp [l, chunks2, hecc]
+  rw [hecc] at h7
+  rw [e]
+  refine ⟨?_, ?_, ?_, ?_, ?_, ?_, ?_⟩
+  · exact slice_chunk [['2', ' '], padLeft '0' 5 (intStr r.norad), [' ']] _ _ tl 8 16 (by simp [h1]) (by simp [h3])
+  · exact slice_chunk [['2', ' '], padLeft '0' 5 (intStr r.norad), [' '], fmtFix false 8 4 r.inc4, [' ']] _ _ tl 17 25 (by simp [h1, h3]) (by simp [h5])
+  · exact slice_chunk [['2', ' '], padLeft '0' 5 (intStr r.norad), [' '], fmtFix false 8 4 r.inc4, [' '], fmtFix false 8 4 r.raan4, [' ']] _ _ tl 26 33
+      (by simp [h1, h3, h5]) (by simp [h7])
+  · exact slice_chunk [['2', ' '], padLeft '0' 5 (intStr r.norad), [' '], fmtFix false 8 4 r.inc4, [' '], fmtFix false 8 4 r.raan4, [' '],
+      fixedDigits 7 r.ecc7, [' ']] _ _ tl 34 42 (by simp [h1, h3, h5, h7]) (by simp [h9])
+  · exact slice_chunk [['2', ' '], padLeft '0' 5 (intStr r.norad), [' '], fmtFix false 8 4 r.inc4, [' '], fmtFix false 8 4 r.raan4, [' '],
+      fixedDigits 7 r.ecc7, [' '], fmtFix false 8 4 r.argp4, [' ']] _ _ tl 43 51 (by simp [h1, h3, h5, h7, h9]) (by simp [h11])
+  · exact slice_chunk [['2', ' '], padLeft '0' 5 (intStr r.norad), [' '], fmtFix false 8 4 r.inc4, [' '], fmtFix false 8 4 r.raan4, [' '],
+      fixedDigits 7 r.ecc7, [' '], fmtFix false 8 4 r.argp4, [' '], fmtFix false 8 4 r.ma4, [' ']] _ _ tl 52 63
+      (by simp [h1, h3, h5, h7, h9, h11]) (by simp [h13])
+  · exact slice_chunk [['2', ' '], padLeft '0' 5 (intStr r.norad), [' '], fmtFix false 8 4 r.inc4, [' '], fmtFix false 8 4 r.raan4, [' '],
+      fixedDigits 7 r.ecc7, [' '], fmtFix false 8 4 r.argp4, [' '], fmtFix false 8 4 r.ma4, [' '], fmtFix false 11 8 r.mm8] _ [] tl 63 68
+      (by simp [h1, h3, h5, h7, h9, h11, h13]) (by simp [h14])
+
+
+/-- the international designator as `Tle.__init__` stores it -/
+def cosparOf (s : Str) : Option (Nat × Str) :=
+  if s.isEmpty then none else some (fullYear ((digitsValAux (s.take 2) 0).getD 0), s.drop 2)
+
+/-- what `Tle.__init__` makes of the written lines of `r` -/
+def expected (r : Rec) (l1 l2 : Str) : Parsed :=
+  { name := [], text := [l1, l2], norad := r.norad, classification := ['U'], cospar := cosparOf r.cospar,
+    year := fullYear r.yy, epochUs := ((r.day8 : Int) - 100000000) * 864, ndot := ⟨r.ndotNeg, r.ndot8, 8⟩,
+    ndd := decOfUnfl r.ndd, bstar := decOfUnfl r.bstar, elnb := r.elnb, revs := r.revs, etype := 0,
+    inc := ⟨false, r.inc4, 4⟩, raan := ⟨false, r.raan4, 4⟩, ecc := ⟨false, r.ecc7, 7⟩, argp := ⟨false, r.argp4, 4⟩,
+    ma := ⟨false, r.ma4, 4⟩, mm := ⟨false, r.mm8, 8⟩ }
+
+theorem century_nat (n : Nat) : century (n : Int) = .ok (fullYear n) := by
+  unfold century fullYear
+  simp [Generated.Tle.pivot]
+
+theorem pyInt_intStr_zero (w : Nat) (i : Int) (h : 0 ≤ i) : pyInt (padLeft '0' w (intStr i)) = .ok i := by
+  rw [intStr_nonneg h, pyInt_padLeft_zero]; congr 1; omega
+
+theorem pyInt_intStr_space (w : Nat) (i : Int) (h : 0 ≤ i) : pyInt (padLeft ' ' w (intStr i)) = .ok i := by
+  rw [intStr_nonneg h, pyInt_padLeft_space]; congr 1; omega
+
+theorem parse_written (r : Rec) (h : InRange r) (c1 c2 : Nat)
+    (hv : checkValidity [(chunks1 r).flatten ++ natStr c1, (chunks2 r).flatten ++ natStr c2] = .ok ())
+    (s1 : strip ((chunks1 r).flatten ++ natStr c1) = (chunks1 r).flatten ++ natStr c1)
+    (s2 : strip ((chunks2 r).flatten ++ natStr c2) = (chunks2 r).flatten ++ natStr c2) :
+    parseBody [(chunks1 r).flatten ++ natStr c1, (chunks2 r).flatten ++ natStr c2] =
+      .ok (expected r ((chunks1 r).flatten ++ natStr c1) ((chunks2 r).flatten ++ natStr c2)) := by
+  obtain ⟨a1, a2, a3, a4, a5, a6, a7, a8, a9, a10⟩ := line1_slices r h (natStr c1)
+  obtain ⟨b1, b2, b3, b4, b5, b6, b7⟩ := line2_slices r h (natStr c2)
+  have f1 := pyInt_intStr_zero 5 r.norad h.norad.1
+  have f4 : pyInt (fixedDigits 2 r.yy) = .ok (r.yy : Int) := by
+    rw [pyInt_fixedDigits 2 r.yy (by omega), Nat.mod_eq_of_lt (by have := h.yy; omega)]
+  have f5 := fmtFix_read true 12 8 r.day8 (by omega)
+  have f6 := ndot_read r.ndotNeg r.ndot8 h.ndot
+  have f7 := (canon_read h.ndd).1
+  have f8 := (canon_read h.bstar).1
+  have f9 : pyInt ['0'] = .ok 0 := by rfl
+  have f10 := pyInt_intStr_space 4 r.elnb h.elnb.1
+  have g1 := fmtFix_read false 8 4 r.inc4 (by omega)
+  have g2 := fmtFix_read false 8 4 r.raan4 (by omega)
+  have g3 : tleFloat (fixedDigits 7 r.ecc7) = .ok ⟨false, r.ecc7, 7⟩ := by
+    rw [ecc_read, Nat.mod_eq_of_lt (by have := h.ecc; omega)]
+  have g4 := fmtFix_read false 8 4 r.argp4 (by omega)
+  have g5 := fmtFix_read false 8 4 r.ma4 (by omega)
+  have g6 := fmtFix_read false 11 8 r.mm8 (by omega)
+  have g7 := pyInt_intStr_space 5 r.revs h.revs.1
+  have hep : epochMicros ⟨false, r.day8, 8⟩ = ((r.day8 : Int) - 100000000) * 864 :=
+    (epoch_roundtrip (fullYear r.yy) r.day8 h.day.1 h.day.2).1
+  -- the international designator
+  have hcos : (if (strip (padRight ' ' 8 r.cospar)).isEmpty = true then (pure none : Except Err (Option (Nat × Str)))
+      else do
+        let y ← pyInt (slice ((chunks1 r).flatten ++ natStr c1) G.cosparYear)
+        let y ← century y
+        pure (some (y, strip (slice ((chunks1 r).flatten ++ natStr c1) G.cosparPiece)))) = .ok (cosparOf r.cospar) := by
+    rcases h.cospar with hc | ⟨cy, piece, hcy, hc, hp, hsp, _⟩
+    · have : strip (padRight ' ' 8 r.cospar) = [] := by rw [hc]; decide
+      simp [this, hc, cosparOf]; rfl
+    · obtain ⟨k1, k2⟩ := line1_cospar_slices r h (natStr c1) cy piece hc hp
+      obtain ⟨c, t, hct, hcd, _⟩ := fixedDigits_ends 2 cy (by omega)
+      have hstrip : strip r.cospar = r.cospar := by
+        rw [hc]
+        rcases List.eq_nil_or_concat piece with hpn | ⟨init, z, hpz⟩
+        · rw [hpn]; simp; exact strip_fixedDigits 2 cy
+        · rw [List.concat_eq_append] at hpz
+          have hz : isWs z = false := ((strip_eq_iff piece).1 hsp).2 z (by rw [hpz]; simp)
+          rw [hct, hpz]
+          have := strip_ends' c z (t ++ init) (isWs_of_isDigit hcd) hz
+          simpa using this
+      have hne : (strip (padRight ' ' 8 r.cospar)).isEmpty = false := by
+        rw [strip_padRight 8 _ hstrip, hc, hct]; rfl
+      rw [k1, k2, hne]
+      simp only [Bool.false_eq_true, if_false]
+      rw [pyInt_fixedDigits 2 cy (by omega), Nat.mod_eq_of_lt (by omega)]
+      simp only [bind, Except.bind, century_nat, pure, Except.pure]
+      rw [strip_padRight 6 piece hsp]
+      have : cosparOf r.cospar = some (fullYear cy, piece) := by
+        unfold cosparOf
+        have hne' : r.cospar.isEmpty = false := by rw [hc, hct]; rfl
+        rw [hne', hc]
+        simp only [Bool.false_eq_true, if_false]
+        rw [List.take_left' (fixedDigits_length 2 cy), List.drop_left' (fixedDigits_length 2 cy), digitsValAux_fixedDigits]
+        simp [Nat.mod_eq_of_lt (show cy < 10 ^ 2 by omega)]
+      rw [this]
+  unfold parseBody
+  rw [hv]
+  simp only [bind, Except.bind, List.map, s1, s2, a1, a2, a3, a4, a5, a6, a7, a8, a9, a10, b1, b2, b3, b4, b5, b6, b7,
+    f1, f4, f5, f6, f7, f8, f9, f10, g1, g2, g3, g4, g5, g6, g7, century_nat]
+  have hcos' := hcos
+  simp only [bind, Except.bind] at hcos'
+  rw [hcos']
+  have hep' : epochMicros { neg := false, mant := r.day8, scale := ((8 : Nat) : Int) } = ((r.day8 : Int) - 100000000) * 864 := hep
+  simp only [pure, Except.pure, expected, hep']
+  rfl
+
+
+theorem natStr_fullYear_drop (cy : Nat) (h : cy < 100) : (natStr (fullYear cy)).drop 2 = fixedDigits 2 cy := by
+  have hn : 1000 ≤ fullYear cy ∧ fullYear cy < 10000 := by unfold fullYear; split <;> omega
+  have hl : (natStr (fullYear cy / 100)).length = 2 := natStr_length_eq 1 _ (by omega) (by omega)
+  rw [natStr_eq (fullYear cy), if_neg (by omega), natStr_eq (fullYear cy / 10), if_neg (by omega)]
+  have e : fullYear cy / 10 / 10 = fullYear cy / 100 := by omega
+  rw [e, List.append_assoc, List.drop_left' hl]
+  have d1 : fullYear cy / 10 % 10 = cy / 10 % 10 := by unfold fullYear; split <;> omega
+  have d2 : fullYear cy % 10 = cy % 10 := by unfold fullYear; split <;> omega
+  simp [fixedDigits, d1, d2]
+
+theorem angle4_grid (v : Nat) (h : v < 3600000) : angle4 ⟨false, v, 4⟩ = .ok v := by
+  unfold angle4 decScaled
+  have e1 : ¬ ((4 : Int) < 0) := by omega
+  have e2 : (4 : Int).toNat = 4 := rfl
+  have e3 : (360 : Int) * 10 ^ 4 = 3600000 := by decide
+  have e4 : ((v : Int) % 3600000).toNat = v := by omega
+  simp [e1, e2, e3, e4]
+
+theorem nonneg_grid (v k : Nat) : nonneg ⟨false, v, k⟩ k = .ok v := by
+  unfold nonneg decScaled
+  simp
+
+theorem decScaled_grid (neg : Bool) (v k : Nat) : (decScaled ⟨neg, v, k⟩ k).natAbs = v := by
+  unfold decScaled
+  cases neg <;> simp
+
+theorem nonneg_grid7 (v : Nat) : nonneg ⟨false, v, 7⟩ 7 = .ok v := by have := nonneg_grid v 7; simpa using this
+theorem nonneg_grid8 (v : Nat) : nonneg ⟨false, v, 8⟩ 8 = .ok v := by have := nonneg_grid v 8; simpa using this
+theorem decScaled_grid8 (neg : Bool) (v : Nat) : (decScaled ⟨neg, v, 8⟩ 8).natAbs = v := by
+  have := decScaled_grid neg v 8; simpa using this
+
+/-- `Tle.orbit()` and the numeric prelude of `from_orbit` give the record back -/
+theorem toRec_expected (r : Rec) (h : InRange r) (l1 l2 : Str) :
+    toRec { expected r l1 l2 with name := r.name } = .ok r := by
+  obtain ⟨_, hny, hday⟩ := epoch_roundtrip (fullYear r.yy) r.day8 h.day.1 h.day.2
+  have hcq : (cosparOf r.cospar = none ∧ r.cospar = []) ∨
+      (∃ cy piece, cy < 100 ∧ cosparOf r.cospar = some (fullYear cy, piece) ∧ r.cospar = fixedDigits 2 cy ++ piece) := by
+    rcases h.cospar with hc | ⟨cy, piece, hcy, hc, _, _, _⟩
+    · left; rw [hc]; exact ⟨rfl, rfl⟩
+    · right
+      obtain ⟨c, t, hct, _, _⟩ := fixedDigits_ends 2 cy (by omega)
+      refine ⟨cy, piece, hcy, ?_, hc⟩
+      unfold cosparOf
+      have hne' : r.cospar.isEmpty = false := by rw [hc, hct]; rfl
+      rw [hne', hc]
+      simp only [Bool.false_eq_true, if_false]
+      rw [List.take_left' (fixedDigits_length 2 cy), List.drop_left' (fixedDigits_length 2 cy), digitsValAux_fixedDigits]
+      simp [Nat.mod_eq_of_lt (show cy < 10 ^ 2 by omega)]
+  have hyy : fullYear r.yy % 100 = r.yy := by have := h.yy; unfold fullYear; split <;> omega
+  have hu1 := (canon_read h.ndd).2
+  have hu2 := (canon_read h.bstar).2
+  unfold toRec
+  simp only [expected, hny, bind, Except.bind, pure, Except.pure, angle4_grid _ h.inc, angle4_grid _ h.raan, angle4_grid _ h.argp,
+    angle4_grid _ h.ma, nonneg_grid7, nonneg_grid8, decScaled_grid8, hu1, hu2, hyy]
+  have hd : (((↑r.day8 - 100000000) * 864 / 86400000000 + 1) * 100000000 +
+      roundDiv ((↑r.day8 - 100000000) * 864 % 86400000000 * 100000000) 86400000000 : Int).toNat = r.day8 := by
+    rw [hday]; simp
+  simp only [hd]
+  rcases hcq with ⟨q1, q2⟩ | ⟨cy, piece, hcy, q1, q2⟩
+  · rw [q1]
+    simp only
+    rw [← q2]
+  · rw [q1]
+    simp only
+    rw [natStr_fullYear_drop cy hcy, ← q2]
+
+
+/-- **any orbit that can be written parses back to the same elements** (and, read the other way, **every numeric
+field is preserved to its printed precision**): for EVERY record `r` inside the ranges of the format — five-digit
+catalogue number, empty or full designator, signed/zero drag and ṅ terms with any one-digit exponent, e in [0,1),
+angles in [0,360), n < 100, element numbers 0–9999, revolution numbers 0–99999, every day of the years 1957–2056,
+with or without name line — `Tle.from_orbit` succeeds, the `Tle` it returns shows exactly the written lines, and
+reading that `Tle` back (`orbit()` followed by the writer's numeric prelude) gives `r` again, field for field. -/
+theorem parse_write_id (r : Rec) (h : InRange r) :
+    ∃ p lines, writeRec r = .ok lines ∧ fromOrbit r = .ok p ∧ parseTle lines = .ok p ∧ tleStr p = lines ∧
+      toRec p = .ok r := by
+  obtain ⟨c1, c2, _, _, _, _, ok1, ok2, _, _, st1, st2, hw⟩ := writeRec_eq r h
+  have hv : checkValidity [(chunks1 r).flatten ++ natStr c1, (chunks2 r).flatten ++ natStr c2] = .ok () := by
+    rw [valid_iff]
+    refine ⟨_, _, [], rfl, ?_, ?_, ?_⟩
+    · have : (chunks1 r).flatten ++ natStr c1 = '1' :: ' ' :: (((chunks1 r).flatten ++ natStr c1).drop 2) := by simp [chunks1]
+      rw [this, lstrip_cons_of_not_ws (by decide)]; rfl
+    · have : (chunks2 r).flatten ++ natStr c2 = '2' :: ' ' :: (((chunks2 r).flatten ++ natStr c2).drop 2) := by simp [chunks2]
+      rw [this, lstrip_cons_of_not_ws (by decide)]; rfl
+    · intro l hl
+      simp at hl
+      rcases hl with rfl | rfl
+      · exact ok1
+      · exact ok2
+  have hp := parse_written r h c1 c2 hv st1 st2
+  have ht := toRec_expected r h ((chunks1 r).flatten ++ natStr c1) ((chunks2 r).flatten ++ natStr c2)
+  rcases h.name with hn | ⟨hne, hns, hn0⟩
+  · -- two-line format
+    have hemp : r.name.isEmpty = true := by rw [hn]; rfl
+    rw [hemp] at hw
+    simp only [if_true] at hw
+    have hpt : parseTle [(chunks1 r).flatten ++ natStr c1, (chunks2 r).flatten ++ natStr c2] = .ok (expected r ((chunks1 r).flatten ++ natStr c1) ((chunks2 r).flatten ++ natStr c2)) := hp
+    have hex : ({ expected r ((chunks1 r).flatten ++ natStr c1) ((chunks2 r).flatten ++ natStr c2) with name := r.name } : Parsed)
+        = (expected r ((chunks1 r).flatten ++ natStr c1) ((chunks2 r).flatten ++ natStr c2)) := by rw [hn]; rfl
+    refine ⟨(expected r ((chunks1 r).flatten ++ natStr c1) ((chunks2 r).flatten ++ natStr c2)), _, hw, ?_, hpt, ?_, ?_⟩
+    · unfold fromOrbit; rw [hw]; exact hpt
+    · rfl
+    · rw [← hex]; exact ht
+  · -- three-line format
+    have hemp : r.name.isEmpty = false := by cases hr : r.name with
+      | nil => exact absurd hr hne
+      | cons _ _ => rfl
+    rw [hemp] at hw
+    simp only [Bool.false_eq_true, if_false] at hw
+    have hname : nameOf r.name = r.name := by unfold nameOf; simp only [hns, hn0]; rfl
+    have hpt : parseTle [r.name, (chunks1 r).flatten ++ natStr c1, (chunks2 r).flatten ++ natStr c2] =
+        .ok { expected r ((chunks1 r).flatten ++ natStr c1) ((chunks2 r).flatten ++ natStr c2) with name := r.name } := by
+      show (parseBody _).map _ = _
+      rw [hp, hname]; rfl
+    refine ⟨_, _, hw, ?_, hpt, ?_, ht⟩
+    · unfold fromOrbit; rw [hw]; exact hpt
+    · show (if r.name.isEmpty then _ else _) = _
+      rw [hemp]; rfl
+
+/-- **parsing a well-formed TLE and writing the resulting orbit back produces the identical lines, name line
+included**: for EVERY text the writer can produce from a record inside the ranges of the format (the canonical
+well-formed TLEs), `Tle.from_orbit(Tle(text).orbit())` succeeds and shows exactly `text`. -/
+theorem write_parse_id (r : Rec) (h : InRange r) (lines : List Str) (hl : writeRec r = .ok lines) :
+    ∃ p, rewrite lines = .ok p ∧ tleStr p = lines := by
+  obtain ⟨p, lines', hw, hf, hp, hs, ht⟩ := parse_write_id r h
+  rw [hl] at hw
+  injection hw with e
+  subst e
+  refine ⟨p, ?_, hs⟩
+  unfold rewrite
+  rw [hp]
+  simp only [bind, Except.bind]
+  rw [ht]
+  exact hf
+
+
+/-- the hypotheses are met by the reference TLE (three-line format, signed drag term, negative ṅ) -/
+example : ∃ p lines, writeRec issRec = .ok lines ∧ fromOrbit issRec = .ok p ∧ parseTle lines = .ok p ∧ tleStr p = lines ∧
+    toRec p = .ok issRec := parse_write_id issRec issRec_inRange
+
+/-! ## Clause 4 — a multi-TLE text yields exactly its valid entries
+
+(`from_string_yields_valid_entries` was `…_partial` — entries whose lines kept their numbers only — until the
+repair 7d01f12 of `Tle.from_string`; the case of a lost line number is now true of the code and proved.) -/
 
 /-- lines that `from_string` skips: blank or starting with the comment mark -/
 def skipped (l : Str) : Bool := (strip l).isEmpty || startsWith l ['#']
 
-/-- an entry of a multi-TLE text: optional name line, a line starting with `1 `, a line starting with `2 ` -/
+/-- an entry of a multi-TLE text: optional name line and two element lines (possibly corrupted) -/
 structure Block where
   name : Option Str
   l1 : Str
   l2 : Str
 
 def Block.lines (b : Block) : List Str := b.name.toList ++ [b.l1, b.l2]
-
-/-- the two element lines kept their line numbers (whatever else happened to them), no line is blank or a comment,
-and the name line (if any) is not mistaken for an element line -/
-structure Block.Framed (b : Block) : Prop where
-  h1 : startsWith b.l1 ['1', ' '] = true
-  h2 : startsWith b.l2 ['2', ' '] = true
-  s1 : skipped b.l1 = false
-  s2 : skipped b.l2 = false
-  hn : ∀ n, b.name = some n → skipped n = false ∧ startsWith n ['1', ' '] = false ∧ startsWith n ['2', ' '] = false
-  /-- constructing the entry fails, if it fails, with a `ValueError` (what `from_string` catches) -/
-  hv : ∀ e, parseTle b.lines = .error e → isValueError e = true
 
 theorem startsWith_2_not_1 (l : Str) (h : startsWith l ['2', ' '] = true) : startsWith l ['1', ' '] = false := by
   cases l with
@@ -258,47 +810,303 @@ theorem startsWith_2_not_1 (l : Str) (h : startsWith l ['2', ' '] = true) : star
     subst this
     simp [startsWith, List.isPrefixOf]
 
-theorem fs_block (st : FsState) (b : Block) (hb : b.Framed) (hc : st.cache = []) (ha : st.abort = none) :
-    let st' := b.lines.foldl fsStep st
-    st'.cache = [] ∧ st'.abort = none ∧ st'.out = st.out ++ ((parseTle b.lines).toOption).toList := by
-  obtain ⟨h1, h2, s1, s2, hn, hv⟩ := hb
-  have h21 := startsWith_2_not_1 _ h2
-  unfold skipped at s1 s2
+/-! ### every failure of the validity check is a `ValueError` (what `from_string` catches) -/
+
+theorem checkLine_error {i : Nat} {l : Str} {e : Err} (h : checkLine i l = .error e) : isValueError e = true := by
+  unfold checkLine at h
+  simp only at h
+  split at h
+  · cases h; rfl
+  · split at h
+    · cases h; rfl
+    · split at h
+      · cases h
+      · cases h; rfl
+
+theorem checkLines_error {i : Nat} {ls : List Str} {e : Err} (h : checkLines i ls = .error e) : isValueError e = true := by
+  induction ls generalizing i with
+  | nil => simp [checkLines] at h
+  | cons l ls ih =>
+    simp only [checkLines] at h
+    cases hl : checkLine i l with
+    | error e' =>
+      rw [hl] at h
+      simp [bind, Except.bind] at h
+      subst h
+      exact checkLine_error hl
+    | ok u =>
+      rw [hl] at h
+      simp [bind, Except.bind] at h
+      exact ih h
+
+theorem checkValidity_error {t : List Str} {e : Err} (h : checkValidity t = .error e) : isValueError e = true := by
+  unfold checkValidity at h
+  split at h
+  · split at h
+    · cases h; rfl
+    · split at h
+      · cases h; rfl
+      · exact checkLines_error h
+  · cases h; rfl
+
+theorem parseBody_invalid {t : List Str} (h : checkValidity t ≠ .ok ()) :
+    ∃ e, parseBody t = .error e ∧ isValueError e = true := by
+  cases hv : checkValidity t with
+  | ok u => exact absurd hv h
+  | error e =>
+    refine ⟨e, ?_, checkValidity_error hv⟩
+    unfold parseBody
+    rw [hv]
+    rfl
+
+theorem bad_pair {a b : Str} (h : ¬ LineOk a ∨ ¬ LineOk b) : checkValidity [a, b] ≠ .ok () := by
+  intro hv
+  obtain ⟨_, _, _, _, _, _, hall⟩ := (valid_iff _).1 hv
+  rcases h with h | h
+  · exact h (hall a (by simp))
+  · exact h (hall b (by simp))
+
+def unname (p : Parsed) : Parsed := { p with name := [] }
+
+theorem unname_rename (p : Parsed) (n : Str) : unname { p with name := n } = unname p := rfl
+
+/-! ### one step of the generator -/
+
+theorem fs_other (st : FsState) (l : Str) (ha : st.abort = none) (hs : skipped l = false)
+    (h1 : startsWith l ['1', ' '] = false) (h2 : startsWith l ['2', ' '] = false) :
+    fsStep st l = { st with cache := [l] } := by
+  unfold skipped at hs
+  unfold fsStep; simp [ha, hs, h1, h2]
+
+theorem fs_one (st : FsState) (l : Str) (ha : st.abort = none) (hs : skipped l = false)
+    (h1 : startsWith l ['1', ' '] = true) :
+    fsStep st l = { st with cache := (st.cache.getLast?.toList.filter (fun x => !startsWith x ['1', ' '])) ++ [l] } := by
+  unfold skipped at hs
+  unfold fsStep; simp [ha, hs, h1]
+
+theorem fs_two_ok (st : FsState) (l : Str) (p : Parsed) (ha : st.abort = none) (hs : skipped l = false)
+    (h2 : startsWith l ['2', ' '] = true) (hp : parseTle (st.cache ++ [l]) = .ok p) :
+    fsStep st l = { st with cache := [], out := st.out ++ [p] } := by
+  unfold skipped at hs
+  unfold fsStep; simp [ha, hs, startsWith_2_not_1 l h2, h2, hp]
+
+theorem fs_two_err (st : FsState) (l : Str) (e : Err) (ha : st.abort = none) (hs : skipped l = false)
+    (h2 : startsWith l ['2', ' '] = true) (hp : parseTle (st.cache ++ [l]) = .error e) (he : isValueError e = true) :
+    fsStep st l = { st with cache := [] } := by
+  unfold skipped at hs
+  unfold fsStep; simp [ha, hs, startsWith_2_not_1 l h2, h2, hp, he]
+
+
+/-! ### one entry -/
+
+/-- between entries the cache is empty, or holds one line that fails the per-line check (the remains of an entry
+whose second line lost its number) -/
+def Inv (st : FsState) : Prop := st.abort = none ∧ (st.cache = [] ∨ ∃ x, st.cache = [x] ∧ ¬ LineOk x)
+
+def Block.framed (b : Block) : Bool := startsWith b.l1 ['1', ' '] && startsWith b.l2 ['2', ' ']
+
+/-- what the entry contributes: the `Tle` of its two element lines when both kept their line numbers and the pair is
+accepted (name aside) -/
+def Block.yield (b : Block) : Option Parsed :=
+  if b.framed then ((parseBody [b.l1, b.l2]).toOption).map unname else none
+
+/-- the entries the property quantifies over: no blank or comment line; the name line (if any) does not look like an
+element line; at most ONE of the two element lines lost its `1 ` / `2 ` prefix, and that line then fails the per-line
+check (true of every single-digit or length corruption, see `digit_corruption_rejected`); constructing an entry from
+two properly numbered lines fails, if it fails, with a `ValueError`. -/
+structure Block.Shaped (b : Block) : Prop where
+  s1 : skipped b.l1 = false
+  s2 : skipped b.l2 = false
+  hn : ∀ n, b.name = some n → skipped n = false ∧ startsWith n ['1', ' '] = false ∧ startsWith n ['2', ' '] = false
+  shape : (startsWith b.l1 ['1', ' '] = true ∧ startsWith b.l2 ['2', ' '] = true) ∨
+          (startsWith b.l1 ['1', ' '] = false ∧ ¬ LineOk b.l1 ∧ startsWith b.l2 ['2', ' '] = true) ∨
+          (startsWith b.l1 ['1', ' '] = true ∧ startsWith b.l2 ['2', ' '] = false ∧ ¬ LineOk b.l2)
+  hv : b.framed = true → ∀ e, parseBody [b.l1, b.l2] = .error e → isValueError e = true
+
+theorem fs_pair (st : FsState) (b : Block) (hb : b.Shaped) (ha : st.abort = none)
+    (hc : st.cache = [] ∨ ∃ y, st.cache = [y]) :
+    Inv ([b.l1, b.l2].foldl fsStep st) ∧
+    ([b.l1, b.l2].foldl fsStep st).out.map unname = st.out.map unname ++ b.yield.toList := by
+  obtain ⟨s1, s2, _, shape, hv⟩ := hb
+  simp only [List.foldl_cons, List.foldl_nil]
+  rcases shape with ⟨h1, h2⟩ | ⟨h1, bad1, h2⟩ | ⟨h1, h2, bad2⟩
+  · -- both lines numbered: the pair is tried with at most one line (a name) in front of it
+    have hf : b.framed = true := by simp [Block.framed, h1, h2]
+    have hy : b.yield = ((parseBody [b.l1, b.l2]).toOption).map unname := by simp [Block.yield, hf]
+    have e1 := fs_one st b.l1 ha s1 h1
+    generalize fsStep st b.l1 = st1 at e1 ⊢
+    have a1 : st1.abort = none := by rw [e1]; exact ha
+    have o1 : st1.out = st.out := by rw [e1]
+    have hcache : st1.cache = [b.l1] ∨ ∃ y, st1.cache = [y, b.l1] := by
+      rw [e1]
+      rcases hc with hc | ⟨y, hc⟩
+      · left; simp [hc]
+      · by_cases hy1 : startsWith y ['1', ' '] = true
+        · left; simp [hc, hy1]
+        · right; exact ⟨y, by simp [hc, hy1]⟩
+    cases hp : parseBody [b.l1, b.l2] with
+    | error e =>
+      have he := hv hf e hp
+      have hatt : parseTle (st1.cache ++ [b.l2]) = .error e := by
+        rcases hcache with h | ⟨y, h⟩
+        · rw [h]; exact hp
+        · rw [h]; show (parseBody [b.l1, b.l2]).map _ = _; rw [hp]; rfl
+      rw [fs_two_err st1 b.l2 e a1 s2 h2 hatt he]
+      refine ⟨⟨a1, Or.inl rfl⟩, ?_⟩
+      simp [hy, hp, Except.toOption, o1]
+    | ok p =>
+      have hatt : ∃ p', parseTle (st1.cache ++ [b.l2]) = .ok p' ∧ unname p' = unname p := by
+        rcases hcache with h | ⟨y, h⟩
+        · exact ⟨p, by rw [h]; exact hp, rfl⟩
+        · refine ⟨{ p with name := nameOf y }, ?_, unname_rename p _⟩
+          rw [h]; show (parseBody [b.l1, b.l2]).map _ = _; rw [hp]; rfl
+      obtain ⟨p', hatt, hun⟩ := hatt
+      rw [fs_two_ok st1 b.l2 p' a1 s2 h2 hatt]
+      refine ⟨⟨a1, Or.inl rfl⟩, ?_⟩
+      simp [hy, hp, Except.toOption, hun, o1]
+  · -- line 1 lost its number: whatever is tried contains the bad line among its element lines
+    have hf : b.framed = false := by simp [Block.framed, h1]
+    have hy : b.yield = none := by simp [Block.yield, hf]
+    by_cases h12 : startsWith b.l1 ['2', ' '] = true
+    · -- it is taken for a line 2
+      have hfail : ∃ e, parseTle (st.cache ++ [b.l1]) = .error e ∧ isValueError e = true := by
+        rcases hc with hc | ⟨y, hc⟩
+        · rw [hc]; exact ⟨.lineCount 1, rfl, rfl⟩
+        · rw [hc]; exact parseBody_invalid (bad_pair (Or.inr bad1))
+      obtain ⟨e, he1, he2⟩ := hfail
+      have e1 := fs_two_err st b.l1 e ha s1 h12 he1 he2
+      generalize fsStep st b.l1 = st1 at e1 ⊢
+      have a1 : st1.abort = none := by rw [e1]; exact ha
+      have o1 : st1.out = st.out := by rw [e1]
+      have c1 : st1.cache = [] := by rw [e1]
+      have : parseTle (st1.cache ++ [b.l2]) = .error (.lineCount 1) := by rw [c1]; rfl
+      rw [fs_two_err st1 b.l2 _ a1 s2 h2 this rfl]
+      exact ⟨⟨a1, Or.inl rfl⟩, by simp [hy, o1]⟩
+    · -- it is taken for a name line
+      have h12' : startsWith b.l1 ['2', ' '] = false := by simpa using h12
+      have e1 := fs_other st b.l1 ha s1 h1 h12'
+      generalize fsStep st b.l1 = st1 at e1 ⊢
+      have a1 : st1.abort = none := by rw [e1]; exact ha
+      have o1 : st1.out = st.out := by rw [e1]
+      have c1 : st1.cache = [b.l1] := by rw [e1]
+      obtain ⟨e, he1, he2⟩ := parseBody_invalid (bad_pair (a := b.l1) (b := b.l2) (Or.inl bad1))
+      have hatt : parseTle (st1.cache ++ [b.l2]) = .error e := by rw [c1]; exact he1
+      rw [fs_two_err st1 b.l2 e a1 s2 h2 hatt he2]
+      exact ⟨⟨a1, Or.inl rfl⟩, by simp [hy, o1]⟩
+  · -- line 2 lost its number: it stays alone in the cache
+    have hf : b.framed = false := by simp [Block.framed, h2]
+    have hy : b.yield = none := by simp [Block.yield, hf]
+    have e1 := fs_one st b.l1 ha s1 h1
+    generalize fsStep st b.l1 = st1 at e1 ⊢
+    have a1 : st1.abort = none := by rw [e1]; exact ha
+    have o1 : st1.out = st.out := by rw [e1]
+    have hlast : st1.cache.getLast? = some b.l1 := by rw [e1]; simp
+    by_cases h21 : startsWith b.l2 ['1', ' '] = true
+    · rw [fs_one st1 b.l2 a1 s2 h21]
+      refine ⟨⟨a1, Or.inr ⟨b.l2, ?_, bad2⟩⟩, by simp [hy, o1]⟩
+      simp [hlast, h1]
+    · have h21' : startsWith b.l2 ['1', ' '] = false := by simpa using h21
+      rw [fs_other st1 b.l2 a1 s2 h21' h2]
+      exact ⟨⟨a1, Or.inr ⟨b.l2, rfl, bad2⟩⟩, by simp [hy, o1]⟩
+
+theorem fs_block_full (st : FsState) (b : Block) (hb : b.Shaped) (hi : Inv st) :
+    Inv (b.lines.foldl fsStep st) ∧
+    (b.lines.foldl fsStep st).out.map unname = st.out.map unname ++ b.yield.toList := by
+  obtain ⟨ha, hc⟩ := hi
+  have hc' : st.cache = [] ∨ ∃ y, st.cache = [y] := by
+    rcases hc with h | ⟨x, h, _⟩
+    · exact Or.inl h
+    · exact Or.inr ⟨x, h⟩
   cases hname : b.name with
   | none =>
-    have hl : b.lines = [b.l1, b.l2] := by simp [Block.lines, hname]
-    rw [hl] at hv ⊢
+    have : b.lines = [b.l1, b.l2] := by simp [Block.lines, hname]
+    rw [this]
+    exact fs_pair st b hb ha hc'
+  | some n =>
+    obtain ⟨sn, n1, n2⟩ := hb.hn n hname
+    have : b.lines = n :: [b.l1, b.l2] := by simp [Block.lines, hname]
+    rw [this, List.foldl_cons, fs_other st n ha sn n1 n2]
+    exact fs_pair { st with cache := [n] } b hb ha (Or.inr ⟨n, rfl⟩)
+
+/-- **a multi-TLE text yields exactly its valid entries**: for EVERY text made of entries (with or without name
+line, in any mix) each of which is intact or corrupted — anywhere in its digits, in its length, or in ONE of its two
+line numbers — `from_string` yields, in order and name aside, exactly the `Tle` of every entry whose two lines kept
+their numbers and are accepted by `Tle(...)`; nothing else is yielded, no valid entry is lost after a corrupted one,
+and the generator does not abort. -/
+theorem from_string_yields_valid_entries (blocks : List Block) (hb : ∀ b ∈ blocks, b.Shaped) :
+    (fromString (blocks.flatMap Block.lines)).out.map unname = blocks.filterMap Block.yield ∧
+    (fromString (blocks.flatMap Block.lines)).abort = none := by
+  unfold fromString
+  have key : ∀ (bs : List Block) (st : FsState), (∀ b ∈ bs, b.Shaped) → Inv st →
+      ((bs.flatMap Block.lines).foldl fsStep st).out.map unname = st.out.map unname ++ bs.filterMap Block.yield ∧
+      ((bs.flatMap Block.lines).foldl fsStep st).abort = none := by
+    intro bs
+    induction bs with
+    | nil => intro st _ hi; simp [hi.1]
+    | cons b bs ih =>
+      intro st hall hi
+      obtain ⟨hi', ho⟩ := fs_block_full st b (hall b (by simp)) hi
+      simp only [List.flatMap_cons, List.foldl_append]
+      obtain ⟨r1, r2⟩ := ih (b.lines.foldl fsStep st) (fun x hx => hall x (by simp [hx])) hi'
+      refine ⟨?_, r2⟩
+      rw [r1, ho, List.filterMap_cons]
+      cases b.yield <;> simp
+  have := key blocks {} hb ⟨rfl, Or.inl rfl⟩
+  simpa using this
+
+
+/-- an entry whose two element lines kept their numbers (they may be corrupted anywhere else) -/
+structure Block.Framed (b : Block) : Prop where
+  h1 : startsWith b.l1 ['1', ' '] = true
+  h2 : startsWith b.l2 ['2', ' '] = true
+  s1 : skipped b.l1 = false
+  s2 : skipped b.l2 = false
+  hn : ∀ n, b.name = some n → skipped n = false ∧ startsWith n ['1', ' '] = false ∧ startsWith n ['2', ' '] = false
+  hv : ∀ e, parseTle b.lines = .error e → isValueError e = true
+
+theorem fs_block_framed (st : FsState) (b : Block) (hb : b.Framed) (hc : st.cache = []) (ha : st.abort = none) :
+    (b.lines.foldl fsStep st).cache = [] ∧ (b.lines.foldl fsStep st).abort = none ∧
+    (b.lines.foldl fsStep st).out = st.out ++ ((parseTle b.lines).toOption).toList := by
+  obtain ⟨h1, h2, s1, s2, hn, hv⟩ := hb
+  have tail : ∀ (st0 : FsState) (pre : List Str), st0.abort = none → st0.out = st.out → b.lines = pre ++ [b.l1, b.l2] →
+      st0.cache = pre → (∀ x, pre.getLast? = some x → startsWith x ['1', ' '] = false) → pre.length ≤ 1 →
+      ([b.l1, b.l2].foldl fsStep st0).cache = [] ∧ ([b.l1, b.l2].foldl fsStep st0).abort = none ∧
+      ([b.l1, b.l2].foldl fsStep st0).out = st.out ++ ((parseTle b.lines).toOption).toList := by
+    intro st0 pre a0 o0 hl c0 hpre hlen
     simp only [List.foldl_cons, List.foldl_nil]
-    have e1 : fsStep st b.l1 = { st with cache := [b.l1] } := by
-      unfold fsStep; simp [ha, s1, h1, hc]
-    rw [e1]
-    unfold fsStep
-    simp only [ha, Option.isSome_none, Bool.false_eq_true, if_false, s2, h21, h2, if_true, List.cons_append, List.nil_append]
-    cases hp : parseTle [b.l1, b.l2] with
-    | ok p => simp [Except.toOption]
-    | error e => simp [hv e hp, Except.toOption]
+    have e1 := fs_one st0 b.l1 a0 s1 h1
+    generalize fsStep st0 b.l1 = st1 at e1 ⊢
+    have a1 : st1.abort = none := by rw [e1]; exact a0
+    have o1 : st1.out = st.out := by rw [e1]; exact o0
+    have c1 : st1.cache = pre ++ [b.l1] := by
+      rw [e1, c0]
+      match pre, hpre, hlen with
+      | [], _, _ => simp
+      | [x], hpre, _ => simp [hpre x (by simp)]
+      | _ :: _ :: _, _, hlen => simp at hlen
+    have hatt : parseTle (st1.cache ++ [b.l2]) = parseTle b.lines := by rw [c1, hl]; simp
+    cases hp : parseTle b.lines with
+    | ok p =>
+      rw [fs_two_ok st1 b.l2 p a1 s2 h2 (hatt.trans hp)]
+      exact ⟨rfl, a1, by simp [o1, Except.toOption]⟩
+    | error e =>
+      rw [fs_two_err st1 b.l2 e a1 s2 h2 (hatt.trans hp) (hv e hp)]
+      exact ⟨rfl, a1, by simp [o1, Except.toOption]⟩
+  cases hname : b.name with
+  | none =>
+    have hl : b.lines = [] ++ [b.l1, b.l2] := by simp [Block.lines, hname]
+    rw [show b.lines.foldl fsStep st = [b.l1, b.l2].foldl fsStep st by rw [hl]; rfl]
+    exact tail st [] ha rfl hl hc (by simp) (by simp)
   | some n =>
     obtain ⟨sn, n1, n2⟩ := hn n hname
-    unfold skipped at sn
-    have hl : b.lines = [n, b.l1, b.l2] := by simp [Block.lines, hname]
-    rw [hl] at hv ⊢
-    simp only [List.foldl_cons, List.foldl_nil]
-    have e0 : fsStep st n = { st with cache := [n] } := by
-      unfold fsStep; simp [ha, sn, n1, n2]
-    rw [e0]
-    have e1 : fsStep { st with cache := [n] } b.l1 = { st with cache := [n, b.l1] } := by
-      unfold fsStep; simp [ha, s1, h1]
-    rw [e1]
-    unfold fsStep
-    simp only [ha, Option.isSome_none, Bool.false_eq_true, if_false, s2, h21, h2, if_true, List.cons_append, List.nil_append]
-    cases hp : parseTle [n, b.l1, b.l2] with
-    | ok p => simp [Except.toOption]
-    | error e => simp [hv e hp, Except.toOption]
+    have hl : b.lines = [n] ++ [b.l1, b.l2] := by simp [Block.lines, hname]
+    rw [show b.lines.foldl fsStep st = [b.l1, b.l2].foldl fsStep (fsStep st n) by rw [hl]; rfl,
+      fs_other st n ha sn n1 n2]
+    exact tail { st with cache := [n] } [n] ha rfl hl rfl (by intro x hx; simp at hx; subst hx; exact n1) (by simp)
 
-/-- **a multi-TLE text yields exactly its valid entries** — partial: for every text made of entries whose element
-lines kept their `1 ` / `2 ` prefixes (each may be corrupted anywhere else: digits, length, checksum; with or without
-name line), `from_string` yields, in order, exactly the entries that `Tle(...)` accepts and nothing else. -/
-theorem from_string_yields_valid_entries_partial (blocks : List Block) (hb : ∀ b ∈ blocks, b.Framed) :
+/-- for a text made only of entries whose element lines kept their numbers, the yielded `Tle` objects are exactly,
+name line included, what `Tle(...)` makes of each accepted entry -/
+theorem from_string_framed_exact (blocks : List Block) (hb : ∀ b ∈ blocks, b.Framed) :
     (fromString (blocks.flatMap Block.lines)).out = blocks.filterMap (fun b => (parseTle b.lines).toOption) ∧
     (fromString (blocks.flatMap Block.lines)).abort = none := by
   unfold fromString
@@ -310,7 +1118,7 @@ theorem from_string_yields_valid_entries_partial (blocks : List Block) (hb : ∀
     | nil => intro st _ _ ha; simp [ha]
     | cons b bs ih =>
       intro st hall hc ha
-      obtain ⟨c', a', o'⟩ := fs_block st b (hall b (by simp)) hc ha
+      obtain ⟨c', a', o'⟩ := fs_block_framed st b (hall b (by simp)) hc ha
       simp only [List.flatMap_cons, List.foldl_append]
       obtain ⟨r1, r2⟩ := ih (b.lines.foldl fsStep st) (fun x hx => hall x (by simp [hx])) c' a'
       refine ⟨?_, r2⟩
@@ -321,24 +1129,37 @@ theorem from_string_yields_valid_entries_partial (blocks : List Block) (hb : ∀
   have := key blocks {} hb rfl rfl
   simpa using this
 
-
 def refL1 : Str := "1 25544U 98067A   08264.51782528 -.00002182  00000-0 -11606-4 0  2927".toList
 def refL2 : Str := "2 25544  51.6416 247.4627 0006703 130.5360 325.0288 15.72125391563537".toList
 def refL2bad : Str := "2 25544  51.6416 247.4627 0006703 130.5360 325.0288 15.72125391563538".toList
+def refL2as1 : Str := "1 25544  51.6416 247.4627 0006703 130.5360 325.0288 15.72125391563537".toList
 
-/-- the hypotheses of `from_string_yields_valid_entries_partial` are met by a named valid entry and by an unnamed
-entry with a wrong checksum -/
-example : (Block.mk (some "ISS (ZARYA)".toList) refL1 refL2).Framed ∧ (Block.mk none refL1 refL2bad).Framed := by
-  refine ⟨⟨by decide, by decide, by decide, by decide, ?_, ?_⟩, ⟨by decide, by decide, by decide, by decide, ?_, ?_⟩⟩
+theorem not_lineOk_of_checksum {l : Str} {c : Nat} (hs : strip l = l) (hc : checksum l = some c)
+    (hne : natStr c ≠ slice l (68, 69)) : ¬ LineOk l := by
+  rintro ⟨_, c', hc', h'⟩
+  rw [hs] at hc' h'
+  rw [hc] at hc'
+  cases hc'
+  exact hne h'
+
+/-- the hypotheses of `from_string_yields_valid_entries` are met by a named valid entry, by an unnamed entry with a
+wrong checksum and by an entry whose second line number was corrupted from 2 to 1 -/
+example : (Block.mk (some "ISS (ZARYA)".toList) refL1 refL2).Shaped ∧ (Block.mk none refL1 refL2bad).Shaped ∧
+    (Block.mk none refL1 refL2as1).Shaped := by
+  refine ⟨⟨by decide, by decide, ?_, Or.inl ⟨by decide, by decide⟩, ?_⟩,
+          ⟨by decide, by decide, ?_, Or.inl ⟨by decide, by decide⟩, ?_⟩,
+          ⟨by decide, by decide, ?_, Or.inr (Or.inr ⟨by decide, by decide, ?_⟩), ?_⟩⟩
   · intro n h; cases h; decide
-  · intro e h
-    have hh : (parseTle (Block.mk (some "ISS (ZARYA)".toList) refL1 refL2).lines).toOption.isSome = true := by decide
+  · intro _ e h
+    have hh : (parseBody [refL1, refL2]).toOption.isSome = true := by decide
     rw [h] at hh; simp [Except.toOption] at hh
   · intro n h; cases h
-  · intro e h
-    have hh : (match parseTle (Block.mk none refL1 refL2bad).lines with
-      | .error e => isValueError e | .ok _ => false) = true := by decide
+  · intro _ e h
+    have hh : (match parseBody [refL1, refL2bad] with | .error e => isValueError e | .ok _ => false) = true := by decide
     rw [h] at hh; exact hh
+  · intro n h; cases h
+  · exact not_lineOk_of_checksum (c := 6) (by decide) (by decide) (by decide)
+  · intro hf; exact absurd hf (by decide)
 
 /-! ## Clause 1 on the reference TLEs of the test-suite (kernel evaluation of the model) -/
 
